@@ -27,6 +27,9 @@ def main(argv):
         elif a == '--also':
             also.append(next(it))
     name = os.path.basename(src.rstrip('/'))
+    m0 = re.match(r'^C\d\d-(\w+)$', name)
+    if m0:
+        name = m0.group(1)          # re-evaluation of a stored change: /verif/seeded/Cnn-X
     sys.path.insert(0, VERIF)
     from mc import build
     tmp = tempfile.mkdtemp(prefix='seed-', dir='/var/tmp')
@@ -34,6 +37,7 @@ def main(argv):
     try:
         shutil.copytree('/repo/src', os.path.join(tmp, 'src'))
         shutil.copytree('/repo/tests', os.path.join(tmp, 'tests'))
+        os.symlink('/repo/examples', os.path.join(tmp, 'examples'))     # test_examples.py executes ../examples/doc/*
         p = subprocess.run(['patch', '-p1', '--fuzz=3', '-s', '-i', os.path.join(src, 'patch.diff')], cwd=tmp,
                            stdout=subprocess.PIPE, stderr=subprocess.STDOUT)
         meta['patch_applies'] = p.returncode == 0
@@ -66,7 +70,7 @@ def main(argv):
             c = subprocess.run([os.path.join(VERIF, 'vcheck'), pr, '--tier', tier], cwd=VERIF, env=envc,
                                stdout=subprocess.PIPE, stderr=subprocess.STDOUT)
             o = c.stdout.decode()
-            keys = re.findall(r'key=(\S+)', o)
+            keys = re.findall(r'^\s+key=(\S+)', o, re.M)
             meta['checks'][pr] = {'tier': tier, 'exit': c.returncode, 'violation_keys': [k for k in keys][:8],
                                   'detected': c.returncode == 1 and 'VIOLATION property=%s' % pr in o,
                                   'wall_s': round(time.time() - t0, 1)}
@@ -86,7 +90,7 @@ def _store(src, prop, name, meta):
     dst = os.path.join(VERIF, 'seeded', '%s-%s' % (prop, name))
     os.makedirs(dst, exist_ok=True)
     for f in ('patch.diff', 'demo.py', 'notes.md'):
-        if os.path.exists(os.path.join(src, f)):
+        if os.path.exists(os.path.join(src, f)) and os.path.abspath(src) != os.path.abspath(dst):
             shutil.copy(os.path.join(src, f), dst)
     try:
         meta['needs_to_manifest'] = open(os.path.join(src, 'notes.md')).read()[:1500]
